@@ -1128,4 +1128,17 @@ example : (pixToPixForImages { exTiled with frameOfReference := some "1.2.3" } {
     (pixToPixForImages { exTiled with frameOfReference := some "1.2.3" } { exTiled with frameOfReference := some "1.2.4" }
       (some 35) (some 11) false false).isOk = false := by decide +kernel
 
+
+/-- `_are_images_coplanar` computes both normals by `get_normal_vector(orientation)` alone: index convention and handedness are the
+regenerated DEFAULTS of that function; `get_closest_patient_orientation` tests orthogonality without, `create_affine_matrix_from_components`
+with `require_unit` (flags regenerated, TC10g; the body of `_is_matrix_orthogonal` is pinned statement by statement) -/
+theorem tie_coplanar_and_orthogonality (posA : V3) (oriA : Ori) (posB : V3) (oriB : Ori) (m : M3) :
+    areCoplanar posA oriA posB oriB = areCoplanarSrc posA oriA posB oriB ∧
+    closestOrientation m = closestOrientationSrc m ∧
+    Gen.componentsRequireUnit.getD Gen.orthogonalDefaultRequireUnit = true :=
+  ⟨areCoplanar_uses_source posA oriA posB oriB, closestOrientation_uses_source m, components_require_unit⟩
+
+example : areCoplanarSrc exPlane.pos exPlane.o exPlaneB.pos exPlaneB.o = .ok true ∧
+    areCoplanarSrc ⟨0, 0, 5⟩ ⟨⟨1, 0, 0⟩, ⟨0, 1, 0⟩⟩ ⟨0, 0, -5⟩ ⟨⟨1, 0, 0⟩, ⟨0, 1, 0⟩⟩ = .ok false := by decide +kernel
+
 end HdVerif.C10
